@@ -6,6 +6,7 @@ import (
 	"errors"
 	"fmt"
 
+	"github.com/jackc/pgx/v4/minipg"
 	"github.com/jackc/pgx/v4/pgxpool"
 
 	"github.com/shutter-network/rolling-shutter/rolling-shutter/keyper"
@@ -43,6 +44,17 @@ type c20Case struct {
 	Ticks     [][]int `json:"ticks"` // per tick: ordered indices into the eon table
 	Broadcast bool    `json:"broadcast"`
 	RejectAt  int     `json:"reject_at"` // index of the hand-over the mechanism rejects, -1 = none
+	// Arrive: one more key generation completes WHILE a tick runs: its key is recorded
+	// right before the At-th event of tick Tick (events = the handler's database round
+	// trips and its hand-overs, in the order they happen; At = number of events means
+	// after the last). One further tick without new keys follows the last one.
+	Arrive *c20Arrive `json:"arrives_during_a_tick,omitempty"`
+}
+
+type c20Arrive struct {
+	Tick int `json:"tick"`
+	At   int `json:"before_event"`
+	Eon  int `json:"eon_index"`
 }
 
 type handed struct {
@@ -77,6 +89,12 @@ func c20Config() *kprconfig.Config {
 var c20tmpl *pgxpool.Pool
 
 func c20Run(cs c20Case) (class string, violation string) {
+	class, violation, _ = c20RunCount(cs)
+	return
+}
+
+// c20RunCount also returns the number of events (round trips + hand-overs) per tick.
+func c20RunCount(cs c20Case) (class string, violation string, events []int) {
 	if c20tmpl == nil {
 		c20tmpl = c20DB()
 	}
@@ -85,7 +103,27 @@ func c20Run(cs c20Case) (class string, violation string) {
 	q := kprdb.New(pool)
 	var got []handed
 	calls := 0
+	// events of the running tick; the key that arrives during a tick is recorded by a
+	// second session right before the chosen event
+	curTick, evt, inserting := -1, 0, false
+	arrive := func() {
+		if a := cs.Arrive; a != nil && !inserting && a.Tick == curTick && a.At == evt {
+			inserting = true
+			e := c20eons[a.Eon]
+			kpx.Must(kprdb.New(pool).InsertEonPublicKey(ctx, kprdb.InsertEonPublicKeyParams{EonPublicKey: e.Key, Eon: e.Eon}))
+			inserting = false
+		}
+	}
+	event := func() {
+		if inserting || curTick < 0 {
+			return
+		}
+		arrive()
+		evt++
+	}
+	pool.DB().SetHooks(&minipg.Hooks{Before: func(minipg.RoundTrip) error { event(); return nil }})
 	reject := func() error {
+		event()
 		calls++
 		if cs.RejectAt >= 0 && calls-1 == cs.RejectAt {
 			return errors.New("publication mechanism refuses")
@@ -104,26 +142,34 @@ func c20Run(cs c20Case) (class string, violation string) {
 	h := keyper.VerifNewEonPubKeyHandler(pool, c20Config(), capt, cb, cs.Broadcast)
 	attempt := 0
 	rejected := map[int]bool{} // eon index whose hand-over was refused
-	for _, tick := range cs.Ticks {
+	ticks := cs.Ticks
+	if cs.Arrive != nil {
+		ticks = append(append([][]int{}, ticks...), nil) // a trailing tick picks up what arrived during the last one
+	}
+	for ti, tick := range ticks {
 		for _, ei := range tick {
 			e := c20eons[ei]
 			kpx.Must(q.InsertEonPublicKey(ctx, kprdb.InsertEonPublicKeyParams{EonPublicKey: e.Key, Eon: e.Eon}))
 		}
+		curTick, evt = ti, 0
 		_ = h.Tick(ctx) // an error is what the polling loop logs; the oracle looks at hand-overs
+		arrive()        // At == number of events: right after the tick's last event
+		events = append(events, evt)
+		curTick = -1
 		_ = attempt
 	}
 	if cs.Broadcast {
 		for _, m := range capt.Drain() {
 			pk, ok := m.(*p2pmsg.EonPublicKey)
 			if !ok {
-				return "", fmt.Sprintf("broadcast sent a %T", m)
+				return "", fmt.Sprintf("broadcast sent a %T", m), events
 			}
 			if pk.InstanceId != 42 {
-				return "", fmt.Sprintf("broadcast key with instance id %d", pk.InstanceId)
+				return "", fmt.Sprintf("broadcast key with instance id %d", pk.InstanceId), events
 			}
 			okSig, err := p2pmsg.VerifySignature(pk, kpx.Addr(0))
 			if err != nil || !okSig {
-				return "", fmt.Sprintf("broadcast key for eon %d is not signed by the keyper (%v)", pk.Eon, err)
+				return "", fmt.Sprintf("broadcast key for eon %d is not signed by the keyper (%v)", pk.Eon, err), events
 			}
 			got = append(got, handed{pk.Eon, pk.KeyperConfigIndex, pk.ActivationBlock, string(pk.PublicKey)})
 		}
@@ -141,14 +187,19 @@ func c20Run(cs c20Case) (class string, violation string) {
 			total++
 		}
 	}
+	if a := cs.Arrive; a != nil {
+		e := c20eons[a.Eon]
+		want[handed{uint64(e.Eon), uint64(e.Cfg), uint64(e.Act), string(e.Key)}]++
+		total++
+	}
 	seen := map[handed]int{}
 	for _, g := range got {
 		seen[g]++
 		if want[g] == 0 {
-			return "", fmt.Sprintf("handed over a key that was never recorded: eon=%d set=%d activation=%d key=%q", g.Eon, g.Cfg, g.Act, g.Key)
+			return "", fmt.Sprintf("handed over a key that was never recorded: eon=%d set=%d activation=%d key=%q", g.Eon, g.Cfg, g.Act, g.Key), events
 		}
 		if seen[g] > 1 {
-			return "", fmt.Sprintf("key of eon %d handed over twice", g.Eon)
+			return "", fmt.Sprintf("key of eon %d handed over twice", g.Eon), events
 		}
 	}
 	missing := 0
@@ -165,13 +216,17 @@ func c20Run(cs c20Case) (class string, violation string) {
 	}
 	_ = rejected
 	if missing > allowed {
-		return "", fmt.Sprintf("%d of %d recorded eon keys were never handed to the publication mechanism (eons %v); refusals by the mechanism: %d", missing, total, miss, allowed)
+		return "", fmt.Sprintf("%d of %d recorded eon keys were never handed to the publication mechanism (eons %v); refusals by the mechanism: %d", missing, total, miss, allowed), events
 	}
 	// Keys still pending after the last tick are not judged: the statement does not
 	// say what happens to a key the mechanism refused (dropping it and keeping it
 	// for a retry are both admissible); a key that was never offered is already
 	// counted as missing above.
-	return fmt.Sprintf("ticks=%d keys=%d handed=%d refused=%d broadcast=%v", len(cs.Ticks), total, len(got), allowed, cs.Broadcast), ""
+	during := ""
+	if cs.Arrive != nil {
+		during = " one-key-arrives-during-a-tick"
+	}
+	return fmt.Sprintf("ticks=%d keys=%d handed=%d refused=%d broadcast=%v%s", len(cs.Ticks), total, len(got), allowed, cs.Broadcast, during), "", events
 }
 
 // orderedSelections enumerates every ordered selection (no repetition) from avail.
@@ -193,7 +248,7 @@ func orderedSelections(avail []int, maxLen int, fn func(sel []int, rest []int)) 
 func c20() *report.Check {
 	return &report.Check{
 		Level: "model_checking",
-		Rule:  "one polling tick of the real eonPubKeyHandler per transition over a minipg keyper database; every ordered selection of pending keys (0..4 out of four eons of three keyper sets) per tick over 1..3 ticks x {broadcast, callback} x {mechanism accepts everything, refuses the j-th hand-over for every j}; oracle: every recorded key is handed over exactly once with its activation block, set index and eon unless it is the one refused; nothing unknown or duplicated. Classes = (ticks, keys, handed, refused, mode)",
+		Rule:  "one polling tick of the real eonPubKeyHandler per transition over a minipg keyper database; every ordered selection of pending keys (0..4 out of four eons of three keyper sets) per tick over 1..3 ticks x {broadcast, callback} x {mechanism accepts everything, refuses the j-th hand-over for every j}; additionally one more key recorded by a second session at every event boundary (database round trip or hand-over) inside a tick; oracle: every recorded key is handed over exactly once with its activation block, set index and eon unless it is the one refused; nothing unknown or duplicated. Classes = (ticks, keys, handed, refused, mode)",
 		Assumptions: []string{
 			"PostgreSQL semantics as implemented by minipg (47 of the repository's own database tests pass on it); single session",
 			"only eons of keyper sets the keyper belongs to are pending (the statement's precondition)",
@@ -237,6 +292,29 @@ func c20() *report.Check {
 							c.Stats.Class(cls)
 							if idx == 40 {
 								c.Stats.Sample(cs)
+							}
+							if rej >= 0 {
+								continue
+							}
+							// one more key generation completes while one of the ticks runs: every
+							// not yet used eon x every tick x every event boundary of that tick
+							_, _, events := c20RunCount(cs)
+							for _, ei := range rest {
+								for ti := range ticks {
+									for at := 0; at <= events[ti]; at++ {
+										as := cs
+										as.Arrive = &c20Arrive{Tick: ti, At: at, Eon: ei}
+										c.Stats.Evaluations++
+										c.Stats.Traces++
+										c.Stats.Count("runs_with_a_key_arriving_during_a_tick", 1)
+										cls, v := c20Run(as)
+										if v != "" {
+											c.Violation("C20/eon-key-recorded-during-a-tick-not-handed-over", fmt.Sprintf("ticks=%v broadcast=%v; key of eon %d recorded during tick %d right before its event %d of %d: %s", ticks, bc, c20eons[ei].Eon, ti, at, events[ti], v), as)
+											return
+										}
+										c.Stats.Class(cls)
+									}
+								}
 							}
 						}
 					}
